@@ -40,7 +40,8 @@ class Cond:
         self.module, self.func, self.timeout = module, func, timeout
         self.path_timeout = path_timeout if path_timeout is not None else max(10.0, timeout / 2)
         self.params = params or {}       # exported as environment variables: harness modules read their bounds there
-        self.expect = expect             # confirm | refute (vacuity twin) | known (region twin of a finding)
+        self.expect = expect             # confirm | refute (vacuity twin) | known (region twin of a finding) | native (NATIVE_SMOKE only:
+        #                                  conditions about cache state / environment history that tracing cannot afford; a concrete run)
         self.key = key or func
         # filled in by run
         self.verdict = None
@@ -176,6 +177,11 @@ def _native_smoke(report: common.Report, wd: pathlib.Path, conds: List[Cond]) ->
                 _handle_cex(report, wd, c, dict(call=call, detail=f"native run (no tracing): {call} -> {out[:120]}"))
         if n:
             report.extra["native_smoke_runs"] = report.extra.get("native_smoke_runs", 0) + n
+        if c.expect == "native":
+            if n:
+                report.discharged(1, key=c.ident() + ":native", sample=dict(condition=c.ident(), verdict=f"{n} native calls over the finite argument space, all true (concrete run, no solver)"))
+            else:
+                report.unknown(c.ident(), "native-only condition without NATIVE_SMOKE entries")
 
 
 def run_conditions(report: common.Report, conds: List[Cond], jobs: Optional[int] = None) -> None:
@@ -188,6 +194,8 @@ def run_conditions(report: common.Report, conds: List[Cond], jobs: Optional[int]
         # schedule: twins first (cheap), then conditions sorted by decreasing budget
         work: List[Tuple[Cond, bool]] = []
         for c in conds:
+            if c.expect == "native":
+                continue
             work.append((c, False))
             if c.expect == "confirm":
                 work.append((c, True))
